@@ -119,4 +119,11 @@ def suite_two_clients(ctx):
     return c15.suite_two_clients(ctx)
 
 
-SUITES = [suite_enc, suite_iso, suite_mem_frames, suite_two_clients]
+def suite_reentrant(ctx):
+    """the pending-response callback uses the client it belongs to: the request in flight goes on as if the callback had done nothing (frames, outcome, instant,
+    adopted timing) - harness/reentrant.py"""
+    from .. import reentrant
+    return reentrant.suite_reentrant(ctx)
+
+
+SUITES = [suite_enc, suite_iso, suite_mem_frames, suite_two_clients, suite_reentrant]
